@@ -10,7 +10,7 @@ def plan(ctx, prop):
     asan = build.driver("asan", "tree_drv", ["tree_drv.c"])
     plain = build.driver("plain", "tree_drv", ["tree_drv.c"])
     if prop == 12:
-        cfgs = [0, 2, 6, 3]
+        cfgs = [0, 2, 6, 3, 34, 39]      # 34 / 39: comparator results with magnitudes other than 1 (34 with data; 39 with notifiers, data, descending)
         types = [0, 1, 2]
     elif prop == 13:
         cfgs = [2, 6]
